@@ -18,10 +18,12 @@ def run(tier, seed):
     vlib.build("handles")
     d = sub("handles")
     nworkers = 8
-    for st, label in (("rs", "read/seek sequences"), ("w", "write/flush/drop sequences, one handle"), ("w2", "two append handles (informational)")):
+    for st, label in (("rs", "read/seek sequences"), ("w", "write/flush/drop sequences, one handle"),
+                      ("w2", "two append handles (real filesystem: append-only binding; Memfs informational)"),
+                      ("wc", "flush while other threads keep the instance busy")):
         try:
             files = vlib.run_workers("handles", ["--set", st, "--tier", tier, "--seed", str(seed), "--sandbox", os.path.join(d, "sandbox-" + st)],
-                                     nworkers if st != "w2" else 2, d, st)
+                                     nworkers if st not in ("w2", "wc") else 2, d, st)
         except Stall as s:
             vlib.stall_violation(out, s, "handles:" + st)
             continue
